@@ -533,7 +533,7 @@ class Interp:
                 raise Unanalysable(f'unbound local `{p}`')
             if res.startswith('Ctor'):
                 return ('ctor', p)
-            if (res.startswith('Const') and not res.startswith('ConstParam')) or res.startswith('Static'):
+            if (res.startswith('Const') and not res.startswith('ConstParam')) or res.startswith('Static') or res.startswith('AssocConst'):
                 try:
                     cb = peel(self.ev.const_body(p))
                 except Unanalysable:
